@@ -475,7 +475,7 @@ fn span_laws(c: u64, max_size: u64) {
     let (span_start, span_end, first_idx) = slice_get_ranges_span(start, end, c, &meta);
     assert!(span_start == rr_start && span_end == rr_end && first_idx == start_idx as u64, "get_ranges and get_opts agree on the chunk span");
     kani::cover!(end % c == 0 && end < size, "request ends on a chunk boundary");
-    kani::cover!(rr_end == size && size % c != 0, "span ends in the short tail chunk");
+    kani::cover!(rr_end == size && (size % c != 0 || c == 1), "span ends in the (short) tail chunk");
     kani::cover!(start_offset > 0 || c == 1, "request starts inside a chunk");
 }
 macro_rules! span {
